@@ -554,6 +554,34 @@ def r10(ctx):
     C06.share_failing_body(ctx, "C14.R10")
 
 
+def open_opts_builders(ctx, rule):
+    """the options a holder opens a document with are the options that reach the store actor: every OpenOpts builder evaluated on
+    options whose fields are distinct tokens - `sync()` sets the sync flag and keeps the subscriber, `subscribe(tx)` sets the
+    subscriber and keeps the flag (whatever the order in which they are chained)"""
+    from . import feval as E
+    f = ctx.facts
+    OO = "actor::OpenOpts"
+    fields = [x["name"] for x in f.adt(OO)["variants"][0]["fields"]]
+    for path, params, changes in (("actor::OpenOpts::sync", [], {"sync": "1"}), ("actor::OpenOpts::subscribe", ["arg.sender"], {"subscribe": "Some(arg.sender)"})):
+        b = f.body(path)
+        ctx.touch(b)
+        init = {n: E.Tok(n + "0") for n in fields}
+        want = {n: n + "0" for n in fields}
+        want.update(changes)
+        try:
+            ret, itp = E.run_it(f, path, [E.struct(f, OO, **init)] + [E.Tok(x) for x in params], {}, lambda k, n, p2, s2: None)
+            v = itp.resolve(ret)
+            got = {fd: E.describe(itp.resolve(v[3].get(i)), f) for i, fd in enumerate(fields)} if (v is not None and v[0] == "adt") else {"?": E.describe(v, f)}
+        except E.Unsupported as e:
+            got = {"?": "UNSUPPORTED-FORM: %s" % e}
+        ctx.check(got == want, rule, path, "open-options-builder[%s]" % path.split("::")[-1], "options afterwards %s; spec %s" % (got, want), b.sp)
+
+
+def r11(ctx):
+    open_opts_builders(ctx, "C14.R11")
+    ctx.floor("C14.R11", 2)
+
+
 def run(ctx):
     ctx.run_rule("C14.R1", r1)
     ctx.run_rule("C14.R2", r2)
@@ -565,3 +593,4 @@ def run(ctx):
     ctx.run_rule("C14.R8", r8)
     ctx.run_rule("C14.R9", r9)
     ctx.run_rule("C14.R10", r10)
+    ctx.run_rule("C14.R11", r11)
